@@ -63,9 +63,28 @@ func runInspectImpl(o iOpts, file []byte, validate bool) Val {
 			bs = append(bs, b)
 		}
 	}
+	// validate = false: also the non-verifying scan Inspect(false) is compared with
+	var tscan Val = VL{VT("none")}
+	if !validate {
+		to := o.r()
+		to.trusted = true
+		if br, err := carv2.NewBlockReader(bytes.NewReader(file), to.v2()...); err != nil {
+			tscan = VL{VT("openerr"), verr(err)}
+		} else {
+			var bs []blocks.Block
+			for {
+				b, err := br.Next()
+				if err != nil {
+					tscan = VL{VT("ok"), VN(br.Version), cidsVal(br.Roots), blocksObs(bs, err)}
+					break
+				}
+				bs = append(bs, b)
+			}
+		}
+	}
 	r, err := carv2.NewReader(bytes.NewReader(file), o.r().v2()...)
 	if err != nil {
-		return VL{VL{VT("newerr"), verr(err)}, scan, VL{VT("none")}}
+		return VL{VL{VT("newerr"), verr(err)}, scan, VL{VT("none")}, tscan}
 	}
 	var insp Val
 	if st, err := r.Inspect(validate); err != nil {
@@ -84,7 +103,7 @@ func runInspectImpl(o iOpts, file []byte, validate bool) Val {
 			idx = VL{VT("idx"), VN(uint64(code))}
 		}
 	}
-	return VL{insp, scan, idx}
+	return VL{insp, scan, idx, tscan}
 }
 
 // inspectTables: the oracle tables of scanTables (what the BlockReader can ask about) plus the
